@@ -63,7 +63,7 @@ class SimFile(object):
         self._can_write = 'w' in mode or 'a' in mode or '+' in mode
         # a handle is bound to the storage it was opened on (an inode), not to the name: renaming or replacing the
         # directory entry afterwards does not change what an open handle reads
-        self._data = fs.files[name]
+        self._data = fs.files[fs.resolve(name)]
         if self._append:
             self._pos = len(self._data)
 
@@ -286,6 +286,7 @@ class SimFS(object):
         self.mtimes = {}              # name -> modification time (files have one default time unless a world says otherwise)
         self.max_open = None          # descriptor limit: open() fails with EMFILE while this many library handles are open
         self.fail_opens = None        # {k}: the k-th such open raises EMFILE / EACCES (descriptor table full, unreadable file)
+        self.links = {}               # symbolic links: name -> target name (content-addressed stores link names to blobs)
         self.faults_fired = {}
         self.short_rng = random.Random(short_seed) if short_seed is not None else None
 
@@ -296,9 +297,26 @@ class SimFS(object):
     def get(self, name):
         return bytes(self.files[name])
 
+    def symlink(self, target, name):
+        """`name` becomes a symbolic link to `target`: every lookup by name follows it, as the real calls do."""
+        self.links[name] = target
+
+    def resolve(self, name):
+        for _ in range(8):
+            if name not in self.links:
+                return name
+            name = self.links[name]
+        raise OSError(errno.ELOOP, 'Too many levels of symbolic links', name)
+
+    def realpath(self, path):
+        return SIM_ROOT + self.resolve(sim_name(path))
+
     def rename(self, old, new):
         """The directory entry moves; handles opened on `old` keep reading the same storage."""
-        self.files[new] = self.files.pop(old)
+        if old in self.links:
+            self.links[new] = self.links.pop(old)        # the link itself moves
+        else:
+            self.files[new] = self.files.pop(old)
         self.faults_fired['rename-while-open'] = self.faults_fired.get('rename-while-open', 0) + 1
 
     def crash(self, name, cut):
@@ -321,6 +339,7 @@ class SimFS(object):
         name = sim_name(path)
         if name is None:
             return REAL_OPEN(path, mode, *a, **kw)    # RealFS backend: the real file system
+        shown, name = name, self.resolve(name)
         if 'b' not in mode:
             raise ValueError('SimFS only opens binary files')
         if self.max_open is not None and len(self.leaked()) >= self.max_open:
@@ -344,22 +363,22 @@ class SimFS(object):
                 self.files[name] = bytearray()
         elif 'a' in mode:
             self.files.setdefault(name, bytearray())
-        h = self._new(name, mode, 'library')
+        h = self._new(shown, mode, 'library')       # known by the name it was opened under, bound to the target's storage
         h._ev('open', 0, 0, 0)
         return h
 
     # -- what os.path / os.stat answer for simulated names
     def isfile(self, path):
-        return sim_name(path) in self.files
+        return self.resolve(sim_name(path)) in self.files
 
     def getsize(self, path):
-        name = sim_name(path)
+        name = self.resolve(sim_name(path))
         if name not in self.files:
             raise FileNotFoundError(errno.ENOENT, 'No such file or directory', str(path))
         return len(self.files[name])
 
     def getmtime(self, path):
-        name = sim_name(path)
+        name = self.resolve(sim_name(path))
         if name not in self.files:
             raise FileNotFoundError(errno.ENOENT, 'No such file or directory', str(path))
         return float(self.mtimes.get(name, 1700000000.0))
@@ -395,7 +414,7 @@ class SimFS(object):
 
     def stream(self, name, mode='rb'):
         """A handle created by the harness and handed to the library: caller-owned."""
-        if name not in self.files:
+        if self.resolve(name) not in self.files:
             self.files[name] = bytearray()
         return self._new(name, mode, 'caller')
 
